@@ -1,9 +1,9 @@
 package rules
 
 import (
-	"go/types"
 	"fmt"
 	"go/token"
+	"go/types"
 	"sort"
 	"strings"
 
@@ -26,7 +26,9 @@ func init() {
 	})
 }
 
-func isPoolMsg(v ssa.Value) bool { return v != nil && core.TypeName(v.Type()) == "*message/pool.Message" }
+func isPoolMsg(v ssa.Value) bool {
+	return v != nil && core.TypeName(v.Type()) == "*message/pool.Message"
+}
 
 // releaserParams discovers functions that release one of their *pool.Message parameters on some path: fn → parameter index.
 func releaserParams(e *Env) map[*ssa.Function]map[int]bool {
@@ -132,7 +134,14 @@ func usesValue(in ssa.Instruction, v ssa.Value) bool {
 		return false
 	}
 	for _, op := range in.Operands(nil) {
-		if *op != nil && isPoolMsg(*op) && sameMsg(*op, v) {
+		if *op == nil || !isPoolMsg(*op) {
+			continue
+		}
+		o := core.OnActivePath(*op) // inside a path search: what a helper's result IS on the path examined (e.g. nil on its "nothing yet" return)
+		if core.IsNilConst(o) {
+			continue
+		}
+		if sameMsg(o, v) {
 			return true
 		}
 	}
